@@ -132,9 +132,52 @@ func propC13(c *Ctx) {
 	}
 	countEq := liftGate(countG, nil)
 	hashEq := liftGate(hashG, func(v ssa.Value) bool { return hashCall != nil && v == ssa.Value(hashCall) })
-	c.Check("R13.1", "processLog/count-test-exists", pl.Pos(), len(countEq) > 0, "len(Topics) is compared with numIndexed + 1")
-	c.Check("R13.1", "processLog/hash-test-exists", pl.Pos(), hashCall != nil && len(hashEq) > 0, "Topics[0] is compared with the signature hash using bytes.Equal")
-	if hashCall != nil {
+	// the gate may also stand in front of processLog: every caller tests both before calling it
+	callerGated := false
+	if len(countEq) == 0 || len(hashEq) == 0 {
+		callers := NewResolver(w).CallersOf(pl)
+		callerGated = len(callers) > 0
+		for _, cs := range callers {
+			g := cs.Parent()
+			_, eq := cmpEdges(g, func(b *ssa.BinOp) bool { return b.Op == token.NEQ && isCountTest(b) })
+			e2, _ := cmpEdges(g, func(b *ssa.BinOp) bool { return b.Op == token.EQL && isCountTest(b) })
+			cEq := append(append([]Edge{}, eq...), e2...)
+			var hEq []Edge
+			var hCall *ssa.Call
+			for _, ci := range callsIn(g) {
+				call, isCall := ci.(*ssa.Call)
+				if !isCall || calleeName(call) != "bytes.Equal" {
+					continue
+				}
+				a0, a1 := stripConv(call.Call.Args[0]), stripConv(call.Call.Args[1])
+				isSig := func(v ssa.Value) bool { return isLoadOfField(v, fSig) }
+				isTopic0 := func(v ssa.Value) bool {
+					s, idx, ok := elemOf(v)
+					if !ok {
+						return false
+					}
+					n, okc := constInt(idx)
+					return okc && n == 0 && isTopicsLoad(s)
+				}
+				if (isSig(a0) && isTopic0(a1)) || (isSig(a1) && isTopic0(a0)) {
+					hCall = call
+					t, _ := boolEdges(call)
+					hEq = append(hEq, t...)
+				}
+			}
+			if !(len(cEq) > 0 && len(hEq) > 0 && hCall != nil && guardedByEdges(g, cs, cEq) && guardedByEdges(g, cs, hEq) && guardedByEdges(g, hCall, cEq)) {
+				callerGated = false
+			}
+		}
+	}
+	if callerGated {
+		c.OK("R13.1", "processLog/count-test-exists", pl.Pos(), "every caller of processLog compares len(Topics) with numIndexed + 1 before calling it")
+		c.OK("R13.1", "processLog/hash-test-exists", pl.Pos(), "every caller of processLog compares Topics[0] with the signature hash before calling it (after the count test)")
+	} else {
+		c.Check("R13.1", "processLog/count-test-exists", pl.Pos(), len(countEq) > 0, "len(Topics) is compared with numIndexed + 1")
+		c.Check("R13.1", "processLog/hash-test-exists", pl.Pos(), hashCall != nil && len(hashEq) > 0, "Topics[0] is compared with the signature hash using bytes.Equal")
+	}
+	if hashCall != nil && !callerGated {
 		before := false
 		for _, g := range countG {
 			if g.fn == hashCall.Parent() && guardedByEdges(g.fn, hashCall, g.ok) {
@@ -163,7 +206,7 @@ func propC13(c *Ctx) {
 			continue
 		}
 		n++
-		ok := guardedByEdges(pl, ci, countEq) && guardedByEdges(pl, ci, hashEq)
+		ok := callerGated || (guardedByEdges(pl, ci, countEq) && guardedByEdges(pl, ci, hashEq))
 		c.Check("R13.1", fmt.Sprintf("processLog/%s#%d", kind, callOrdinal(ci)), instrPos(ci), ok, kind+" only for logs that passed both gate tests")
 	}
 	// returns that pass rows through unchanged are fine; any return of a *grown* rows is covered by the append rule
@@ -269,6 +312,55 @@ func propC13(c *Ctx) {
 				if returnValues(r)[0] == ci.(ssa.Value) {
 					okRep = true
 				}
+			}
+		}
+	}
+	if !okRep {
+		// the same with the pieces spelled out: "(" + … + ")" + <what follows "tuple" in Type>
+		isTypeLoad := func(v ssa.Value) bool { return fieldIsOrLoad(stripConv(v), fType) }
+		isSuffix := func(v ssa.Value) bool {
+			v = stripConv(v)
+			switch x := v.(type) {
+			case *ssa.Call:
+				if calleeName(x) == "strings.TrimPrefix" && len(x.Call.Args) == 2 && isTypeLoad(x.Call.Args[0]) {
+					p, ok := constString(x.Call.Args[1])
+					return ok && p == "tuple"
+				}
+			case *ssa.Extract:
+				if call, ok := x.Tuple.(*ssa.Call); ok && x.Index == 0 && calleeName(call) == "strings.CutPrefix" && isTypeLoad(call.Call.Args[0]) {
+					p, ok := constString(call.Call.Args[1])
+					return ok && p == "tuple"
+				}
+			case *ssa.Slice:
+				if isTypeLoad(x.X) && x.High == nil && x.Low != nil {
+					n, ok := constInt(x.Low)
+					return ok && n == int64(len("tuple"))
+				}
+			}
+			return false
+		}
+		for _, r := range returnsOf(is) {
+			var hasSuffix func(v ssa.Value, d int) bool
+			hasSuffix = func(v ssa.Value, d int) bool {
+				v = stripConv(v)
+				if isSuffix(v) {
+					return true
+				}
+				if u, ok := v.(*ssa.UnOp); ok {
+					if al, ok := u.X.(*ssa.Alloc); ok {
+						if cv := cellValue(al); cv != nil {
+							return hasSuffix(cv, d+1)
+						}
+					}
+				}
+				if b, ok := v.(*ssa.BinOp); ok && b.Op == token.ADD && d < 8 {
+					// the suffix is the LAST piece
+					return hasSuffix(b.Y, d+1)
+				}
+				return false
+			}
+			if hasSuffix(returnValues(r)[0], 0) {
+				okRep = true
 			}
 		}
 	}
@@ -403,6 +495,14 @@ func checkRangeAll(c *Ctx, rule string, fn *ssa.Function, over *types.Var, elemF
 		}
 		if b, ok := ref.(*ssa.BinOp); ok && b.Op == token.ADD {
 			written = true
+		}
+		// collected into a slice element for a later strings.Join: parts[i] = x.Signature()
+		if st, ok := ref.(*ssa.Store); ok && st.Val == ssa.Value(call) {
+			if ia, ok := st.Addr.(*ssa.IndexAddr); ok {
+				if _, isSl := ia.X.Type().Underlying().(*types.Slice); isSl {
+					written = true
+				}
+			}
 		}
 	}
 	c.Check(rule, name+"/ranges-over-"+over.Name(), call.Pos(), condFree && written, "Signature() of every element of ."+over.Name()+" is appended, with no per-element condition")
